@@ -71,4 +71,73 @@ theorem TickTop_step {d d' : Dec} {R t : Bytes} (h0 : TickTop d) (hs : StepP d R
     intro hm
     exact h0 (List.mem_of_mem_tail hm)
 
+/-! ### span style bits come from the stack (per call) -/
+
+/-- a span style bit that is on belongs to an open span or is scheduled for clearing -/
+def BitsFromStack (lv : Level) : Prop :=
+  ∀ b, isDirective b = true → lv.mask.getLsbD (styleIdx b) = true →
+    b ∈ lv.spanStack ∨ lv.clearMask.getLsbD (styleIdx b) = true
+
+theorem closeSpan_bits {lv : Level} {b : UInt8} (h : BitsFromStack lv) (hb : isDirective b = true)
+    (hh : lv.spanStack.head? = some b) : BitsFromStack (closeSpan lv b) := by
+  intro c hc hm
+  have hstack : lv.spanStack = b :: lv.spanStack.tail := by
+    cases hs : lv.spanStack with
+    | nil => rw [hs] at hh; simp at hh
+    | cons a l => rw [hs] at hh; simp at hh; subst hh; rfl
+  have hold : lv.mask.getLsbD (styleIdx c) = true := by
+    rcases isDirective_cases hb with rfl | rfl | rfl | rfl <;>
+      rcases isDirective_cases hc with rfl | rfl | rfl | rfl <;>
+      simpa [closeSpan, bitsOf, styleIdx, star, under, tick, tilde, SpanStrongEnd, SpanEmphEnd, SpanStrikeEnd, SpanPreEnd] using hm
+  rcases h c hc hold with hin | hcl
+  · rw [hstack] at hin
+    simp only [List.mem_cons] at hin
+    rcases hin with rfl | hin
+    · right
+      rcases isDirective_cases hb with rfl | rfl | rfl | rfl <;>
+        simp [closeSpan, bitsOf, styleIdx, star, under, tick, tilde, SpanStrong, SpanEmph, SpanStrike, SpanPre]
+    · left; exact hin
+  · right
+    simp only [closeSpan]
+    simp [BitVec.getLsbD_or, hcl]
+
+theorem openSpan_bits {lv : Level} {b : UInt8} (h : BitsFromStack lv) (hb : isDirective b = true) :
+    BitsFromStack (openSpan lv b) := by
+  intro c hc hm
+  by_cases hcb : c = b
+  · left; subst hcb; simp [openSpan]
+  · have hold : lv.mask.getLsbD (styleIdx c) = true := by
+      rcases isDirective_cases hb with rfl | rfl | rfl | rfl <;>
+        rcases isDirective_cases hc with rfl | rfl | rfl | rfl <;>
+        first
+          | exact absurd rfl hcb
+          | simpa [openSpan, bitsOf, styleIdx, star, under, tick, tilde, SpanStrong, SpanEmph, SpanStrike, SpanPre,
+              SpanStrongStart, SpanEmphStart, SpanStrikeStart, SpanPreStart] using hm
+    rcases h c hc hold with hin | hcl
+    · left; simp [openSpan, hin]
+    · right; simp only [openSpan]; simp [BitVec.getLsbD_or, hcl]
+
+theorem spanEffect_bits {lv lv' : Level} (h : BitsFromStack lv) (he : SpanEffect lv lv') : BitsFromStack lv' := by
+  rcases he with rfl | ⟨b, hh, hb, rfl⟩ | ⟨b, hb, _, rfl⟩
+  · exact h
+  · exact closeSpan_bits h hb hh
+  · exact openSpan_bits h hb
+
+theorem normLevel_bits {lv : Level} (h : BitsFromStack lv) : BitsFromStack (normLevel lv) := by
+  intro c hc hm
+  left
+  have hidx : styleIdx c ≠ 1 := by
+    rcases isDirective_cases hc with rfl | rfl | rfl | rfl <;> decide
+  have : lv.mask.getLsbD (styleIdx c) = true ∧ lv.clearMask.getLsbD (styleIdx c) = false := by
+    unfold normLevel at hm
+    by_cases hl : lv.lastNewline = true <;> simp [hl, andNot, BlockQuote] at hm
+    · exact ⟨hm.1.1, hm.2.2⟩
+    · exact ⟨hm.1, hm.2.2⟩
+  have hs : (normLevel lv).spanStack = lv.spanStack := by
+    unfold normLevel; by_cases hl : lv.lastNewline = true <;> simp [hl]
+  rw [hs]
+  rcases h c hc this.1 with hin | hcl
+  · exact hin
+  · rw [this.2] at hcl; cases hcl
+
 end XmppModel.Styling
